@@ -20,7 +20,7 @@ import vlib
 ACTIONS = ["Enq", "Sig", "Drain", "Deq"]     # + WakeSock / WakeWC, WakeTimeout (a deadline passes), Interrupt (EINTR, socket mode), OWaitTimed
 
 
-def cfg(name, spec, sockets, nmsgs, nextra, rounds, polls, invs=None, props=None, mutation="none", record=False, extra="", tloops="{FALSE}", intr=0):
+def cfg(name, spec, sockets, nmsgs, nextra, rounds, polls, invs=None, props=None, mutation="none", record=False, extra="", tloops='{"default"}', intr=0):
     p = os.path.join(vlib.SPEC, "ThreadQueue", name)
     with open(p, "w") as f:
         f.write("SPECIFICATION %s\nCONSTANTS\n  Sockets = %s\n  NMsgs = %d\n  NExtra = %d\n  Rounds = %d\n  MaxPolls = %d\n  TimedLoops = %s\n  MaxIntr = %d\n  Mutation = \"%s\"\n  RECORD = %s\n" %
@@ -45,7 +45,7 @@ def run(v, tier, seed):
         nextra = 1 if (not timed or tier == "thorough") else 0
         if tier == "thorough" and timed: rounds = 1
         name = cfg("gen_MC_%d_%d.cfg" % (int(sockets), int(timed)), "FairSpec", sockets, nm, nextra, rounds, 1, ["Fifo", "PerSenderOrder", "RepliesInOrder"],
-                   ["NoLostWakeup", "ShutdownCompletes", "Delivered", "WaitReturns"], tloops=("{TRUE, FALSE}" if timed else "{FALSE}"), intr=(1 if (sockets and timed) else 0))
+                   ["NoLostWakeup", "ShutdownCompletes", "Delivered", "WaitReturns"], tloops=(('{"default", "timed", "event"}' if sockets else '{"default", "timed"}') if timed else '{"default"}'), intr=(1 if (sockets and timed) else 0))
         r = vlib.tlc("ThreadImpl", name, "ThreadQueue", coverage=True, workers=4, timeout=3400, heap="10g")
         vlib.require_ok(r, "ThreadImpl model check sockets=%s timed=%s" % (sockets, timed))
         need = [a for a in ACTIONS if not (a == "Drain" and not sockets)] + (["WakeSock"] if sockets else ["WakeWC"])
@@ -55,6 +55,13 @@ def run(v, tier, seed):
 
     def reach(sockets):
         name = cfg("gen_Reach_%d.cfg" % int(sockets), "FairSpec", sockets, 2, 0, 1, 0, None, ["NoLostWakeup"], mutation="sig2")
+        r = vlib.tlc("ThreadImpl", name, "ThreadQueue", workers=4, timeout=900)
+        return r.violated is not None and r.error is None or ("NoLostWakeup" in (r.out or ""))
+
+    def reach_readfirst():
+        # the design before repair F46 (look for queued Messages, THEN allocate the sockets) with an event-driven internal thread and a second
+        # sender must lose a wake-up: shows that the model of StartInternalThread and of the event-driven loop is not vacuous
+        name = cfg("gen_Reach_readfirst.cfg", "FairSpec", True, 1, 1, 1, 0, None, ["NoLostWakeup"], mutation="readfirst", tloops='{"event"}')
         r = vlib.tlc("ThreadImpl", name, "ThreadQueue", workers=4, timeout=900)
         return r.violated is not None and r.error is None or ("NoLostWakeup" in (r.out or ""))
 
@@ -92,14 +99,14 @@ def run(v, tier, seed):
     ntr = 250 if tier == "quick" else 3000
     with cf.ThreadPoolExecutor(max_workers=10) as ex:
         f_mc = [ex.submit(model_check, s, t) for s in (True, False) for t in (False, True)]
-        f_rc = [ex.submit(reach, s) for s in (True, False)]
+        f_rc = [ex.submit(reach, s) for s in (True, False)] + [ex.submit(reach_readfirst)]
         f_ex = [ex.submit(explore, s, iters, ntr) for s in (True, False)]
         f_fr = [ex.submit(free, s, 1500 if tier == "quick" else 60000) for s in (True, False)]
         for f in f_mc:
             r = f.result(); tot["states"] += r.distinct; tot["transitions"] += r.generated
             mc_notes.append({"distinct": r.distinct, "generated": r.generated, "depth": r.depth, "wall_s": round(r.wall, 1), "taken": {a: c[0] for a, c in r.coverage.items()}})
         for f in f_rc:
-            if not f.result(): raise vlib.MachineryError("vacuity guard: the wrong design 'signal when the length becomes 2' does not violate NoLostWakeup in the model")
+            if not f.result(): raise vlib.MachineryError("vacuity guard: a wrong design ('signal when the length becomes 2' / 'look for queued Messages before the sockets exist') does not violate NoLostWakeup in the model")
         for s, f in zip((True, False), f_ex):
             rows, accepted, other, maxline, tr, first = f.result()
             summ = [r for r in rows if r.get("summary")][0]
